@@ -9,15 +9,21 @@ pub mod refenc;
 pub mod leaves;
 pub mod family;
 pub mod family_gen;
+pub mod iox;
+pub mod containers;
+pub mod malformed;
+pub mod schemaread;
 
 #[macro_use]
 mod reg;
 
 include!("registry.rs");
 include!("registry_family.rs");
+include!("registry_misc.rs");
 
 pub fn registry() -> Vec<(&'static str, fn(&mut crate::src::ReplaySrc))> {
     let mut v = registry_leaves();
     v.extend(registry_family());
+    v.extend(registry_misc());
     v
 }
